@@ -22,6 +22,8 @@ def sortByName (l : List (Bytes × String)) : List (Bytes × String) :=
 def showTabs (l : List (Bytes × String)) : String :=
   ",".intercalate ((sortByName l).map fun t => s!"{toHex t.1}:{t.2}")
 
+def prefixes : List String := ["header."]
+
 def handle (op : String) (fs : List (String × String)) : String :=
   if op == "header.write" then
     match (getField fs "scaler").bind String.toNat?, (getField fs "tabs").bind parseTabs with
